@@ -15,6 +15,14 @@ import ReuseVerif.Lemmas.TagsCopyright
 import ReuseVerif.Lemmas.TagsText
 import ReuseVerif.Lemmas.Window
 import ReuseVerif.Lemmas.Merge
+import ReuseVerif.Lemmas.C02Lines
+import ReuseVerif.Lemmas.C02TailSafe
+import ReuseVerif.Lemmas.C02Copyright
+import ReuseVerif.Lemmas.C02Extract
+import ReuseVerif.Lemmas.C02Blocks
+import ReuseVerif.Lemmas.C02Window
+import ReuseVerif.Lemmas.C09LineEndings
+import ReuseVerif.Theorems.C12
 import ReuseVerif.Theorems.C20
 
 namespace C02
@@ -183,6 +191,153 @@ theorem C02_tag_found_in_text (endRe body : Re) (hstar : starBody endRe = some b
     findAll_found endRe tag hnl ls pre blanks v pieces.flatten after hfree hshape hend
       (noEndSuffix_of_last endRe v _ hnlv hlast), cleanTag_plain pre v hs hf⟩
 
+/-! ### the finer condition on the value: `tailSafe` -/
+
+/-- **Read-back of a tag value, finer condition.**  `C02_tag_value_exact` with the condition on the value that does
+    not mention the trail: `tailSafe endRe v` — no non-empty tail of `v` is the beginning of a text END matches
+    (decided with Brzozowski derivatives of the END expression).  It covers values whose last character END *can*
+    consume in other contexts (`Jane <j@x.org>`: `>` only after `-`, `?`, `%`, `"`, `'`, `/` …; `(MIT OR X)`: `)` only
+    after `*`, `:`). -/
+theorem C02_value_exact (endRe : Re) (tag pre blanks v trail le : Text)
+    (h : WFValueSafe endRe tag pre blanks v trail le = true) :
+    findSpdxTagWith endRe tag (tagLine pre tag blanks v trail le) = [v] :=
+  C02_tag_value_exact endRe tag pre blanks v trail le (C02L.wfValue_of_safe endRe tag pre blanks v trail le h)
+
+/-- **Stacked terminators, finer condition**: `C02_terminators_never_in_value` with `tailSafe` (purely syntactic, and
+    independent of the trail) instead of `noEndSuffixBefore`. -/
+theorem C02_terminators_tail_safe (endRe body : Re) (hstar : starBody endRe = some body)
+    (tag pre blanks v le : Text) (pieces : List Text)
+    (hp : ∀ p ∈ pieces, pieceOk body p = true)
+    (hshape : WFShape tag pre blanks v pieces.flatten le = true)
+    (hsafe : tailSafe endRe v = true)
+    (hs : isStripped v = true) (hf : frameFree pre v = true) :
+    findSpdxTagWith endRe tag (tagLine pre tag blanks v pieces.flatten le) = [v] := by
+  have hnl : noNewline v = true := by
+    have h := hshape; unfold WFShape at h; simp only [Bool.and_eq_true] at h; exact h.1.1.2
+  exact C02_terminators_never_in_value endRe body hstar tag pre blanks v le pieces hp hshape
+    (C07A.noEndSuffix_of_tailSafe endRe v _ hnl hsafe) hs hf
+
+/-- **The old condition implies the new one**: a value whose last character END cannot consume at all (`mayUse`, the
+    hypothesis of `C02_terminators_safe_last`, `C02_tag_found_in_text`, `C02_window_finds_inside`) is tail-safe … -/
+theorem C02_safe_last_is_tail_safe (endRe : Re) (v : Text) (hlast : ∀ c, v.getLast? = some c → mayUse endRe c = false) :
+    tailSafe endRe v = true := C02L.tailSafe_of_last endRe v hlast
+
+/-- … so the hypotheses of `C02_terminators_safe_last` imply those of `C02_value_exact`. -/
+theorem C02_safe_last_hyps_imply (endRe body : Re) (hstar : starBody endRe = some body)
+    (tag pre blanks v le : Text) (pieces : List Text) (hp : ∀ p ∈ pieces, pieceOk body p = true)
+    (hshape : WFShape tag pre blanks v pieces.flatten le = true)
+    (hlast : ∀ c, v.getLast? = some c → mayUse endRe c = false)
+    (hs : isStripped v = true) (hf : frameFree pre v = true) :
+    WFValueSafe endRe tag pre blanks v pieces.flatten le = true :=
+  C02L.wfValueSafe_of_last endRe body hstar tag pre blanks v le pieces hp hshape hlast hs hf
+
+/-- the finer condition is strictly finer: `Jane <j@x.org>` and `(MIT OR X)` are tail-safe although END can consume
+    their last character; `MIT"` is not (`"` newline `/>` is an ending) -/
+example : tailSafe Generated.endRe "Jane <j@x.org>".toList = true ∧ mayUse Generated.endRe '>' = true ∧
+    tailSafe Generated.endRe "(MIT OR X)".toList = true ∧ mayUse Generated.endRe ')' = true ∧
+    tailSafe Generated.endRe "MIT\"".toList = false := by decide +kernel
+
+/-- `<!-- SPDX-FileContributor: Jane <j@x.org> -->` reads back `Jane <j@x.org>` -/
+example : findSpdxTagWith Generated.endRe Generated.contributorTag
+    (tagLine "<!-- ".toList Generated.contributorTag " ".toList "Jane <j@x.org>".toList
+      ([" ".toList, "-->".toList] : List Text).flatten []) = ["Jane <j@x.org>".toList] :=
+  C02_terminators_tail_safe Generated.endRe ((starBody Generated.endRe).getD .eps) rfl _ _ _ _ _
+    [" ".toList, "-->".toList] (by decide +kernel) (by decide +kernel) (by decide +kernel) (by decide +kernel)
+    (by decide +kernel)
+
+/-! ### texts of arbitrary lines: hypotheses about each line alone -/
+
+/-- **Table obligation.**  The END expression generated from the source reads a line feed only inside the `\s*`
+    that follows `"`, `'` or `]` (`"\s*/*>`, `'\s*/*>`, `]\s*::`); decided on the expression by the abstract run
+    `Spec.guardStep`.  (An ending added to `_END_PATTERN` that can cross a line end elsewhere breaks this.) -/
+theorem C02_end_guarded : EndGuarded Generated.endRe := by decide
+
+/-- **END stops at the end of its own line** — the hypothesis `endStopsAt` of `C02_tag_lines`, which had to be decided
+    per text, *derived*: for every END expression with the structure above, after a trail it accepts that does not
+    end (white space aside) with `"`, `'` or `]`, END ends where the line ends, whatever text follows. -/
+theorem C02_end_stops (endRe : Re) (hG : EndGuarded endRe) (trail rest : Text) (hnl : noNewline trail = true)
+    (hok : endOk endRe trail = true) (hopen : openEnd trail = false) : endStopsAt endRe trail rest = true :=
+  C02L.endStopsAt_of_guarded hG trail rest hnl hok hopen
+
+/-- **Any number of tag lines with arbitrary other lines between them.**  The text is a sequence of lines (separated
+    by line feeds; a final line feed is an empty last line), each either a line in which no `TAG[ \t]` starts —
+    otherwise arbitrary: code, prose, other tags, unclosed quotes — or a tag line
+    `pre ++ TAG ++ blanks ++ v ++ trail` satisfying `tagLineOK`: conditions on *that line alone* (shape; END
+    accepts the trail; the trail does not end with `"`, `'`, `]`; `valueSafeIn`: no tail of the value can begin a
+    run of terminators, or none is taken for terminators in this line read alone and the line does not end with a
+    quote character; the value is stripped and does not end like the mirrored frame), or such a line inside an
+    ASCII-art frame (`pre ++ TAG ++ blanks ++ v ++ ws ++ mirror pre ++ trail`, `tagLineFramedOK`).  Then
+    `find_spdx_tag` returns exactly the values of the tag lines, in order.  Supersedes `C02_tag_lines` (no
+    per-text hypothesis). -/
+theorem C02_tag_lines_general (endRe : Re) (hG : EndGuarded endRe) (tag : Text) (hnl : '\n' ∉ tag)
+    (ls : List TextLine) (hok : ∀ l ∈ ls, l.ok endRe tag = true) :
+    findSpdxTagWith endRe tag (textOf tag ls) = ls.filterMap (·.value) :=
+  C02L.findTag_text hG tag hnl ls hok
+
+/-- the hypotheses are satisfiable:
+    `#!/bin/sh` / `# SPDX-License-Identifier: MIT */ -->` / `x = "unclosed` / `// SPDX-License-Identifier: \tGPL-2.0+` / `` -/
+example : findSpdxTagWith Generated.endRe Generated.licenseTag (textOf Generated.licenseTag
+    [.free "#!/bin/sh".toList, .tagged ⟨"# ".toList, " ".toList, "MIT".toList, " */ -->".toList⟩,
+     .free "x = \"unclosed".toList, .tagged ⟨"// ".toList, " \t".toList, "GPL-2.0+".toList, []⟩, .free []]) =
+    ["MIT".toList, "GPL-2.0+".toList] := by
+  have h1 := C02L.tagLineOK_of_syn Generated.endRe Generated.licenseTag
+    ⟨"# ".toList, " ".toList, "MIT".toList, " */ -->".toList⟩ [" ".toList, "*/".toList, " ".toList, "-->".toList]
+    (by decide +kernel)
+  have h2 := C02L.tagLineOK_of_syn Generated.endRe Generated.licenseTag
+    ⟨"// ".toList, " \t".toList, "GPL-2.0+".toList, []⟩ [] (by decide +kernel)
+  refine C02_tag_lines_general Generated.endRe C02_end_guarded Generated.licenseTag (by decide) _ ?_
+  intro l hl
+  simp only [List.mem_cons, List.not_mem_nil, or_false] at hl
+  rcases hl with rfl | rfl | rfl | rfl | rfl
+  · decide +kernel
+  · exact h1
+  · decide +kernel
+  · exact h2
+  · decide +kernel
+
+/-- `C02_tag_lines` follows: its per-text hypotheses are implied by the per-line ones. -/
+theorem C02_tag_lines_of_line_hyps (endRe : Re) (hG : EndGuarded endRe) (tag : Text) (hnl : '\n' ∉ tag)
+    (ls : List TagLineSpec) (hok : ∀ s ∈ ls, tagLineOK endRe tag s = true) :
+    findSpdxTagWith endRe tag (linesText tag ls) = ls.map (·.v) := by
+  have h := C02_tag_lines_general endRe hG tag hnl (ls.map .tagged ++ [.free []])
+    (by
+      intro l hl
+      simp only [List.mem_append, List.mem_map, List.mem_singleton] at hl
+      rcases hl with ⟨s, hs, rfl⟩ | rfl
+      · exact hok s hs
+      · rfl)
+  rw [C02L.textOf_tagged, C02L.values_tagged] at h
+  exact h
+
+/-- **A tag line is found wherever it stands.**  After *any* text that ends a line (`U` empty or ending with a line
+    feed: it may hold tags, values running on, unclosed quotes — no "tag-free lines above" restriction as in
+    `C02_tag_found_in_text`) and before any text, a tag line satisfying the line-local hypotheses contributes its
+    value: the scan cannot jump over it, because the tag holds a character END cannot consume (`tagUnusable`). -/
+theorem C02_tag_found_anywhere (endRe : Re) (hG : EndGuarded endRe) (tag : Text) (hnl : '\n' ∉ tag)
+    (hun : tagUnusable endRe tag = true)
+    (s : TagLineSpec) (hok : tagLineFound endRe tag s = true) (U after : Text)
+    (hU : U = [] ∨ ∃ u, U = u ++ ['\n']) :
+    s.v ∈ findSpdxTagWith endRe tag (U ++ (s.line tag ++ '\n' :: after)) :=
+  C02L.found_anywhere hG tag hnl hun s hok U after hU
+
+/-- … and so is a tag line inside an ASCII-art frame (`pre ++ TAG ++ blanks ++ v ++ ws ++ mirror pre ++ trail`). -/
+theorem C02_framed_tag_found_anywhere (endRe : Re) (hG : EndGuarded endRe) (tag : Text) (hnl : '\n' ∉ tag)
+    (hun : tagUnusable endRe tag = true)
+    (s : TagLineSpec) (ws : Text) (hok : tagLineFramedOK endRe tag s ws = true) (U after : Text)
+    (hU : U = [] ∨ ∃ u, U = u ++ ['\n']) :
+    s.v ∈ findSpdxTagWith endRe tag (U ++ ((s.framed ws).line tag ++ '\n' :: after)) :=
+  C02L.found_anywhere_framed hG tag hnl hun s ws hok U after hU
+
+/-- the hypotheses are satisfiable: a licence line after a contributor line whose quoted value runs on -/
+example : "MIT".toList ∈ findSpdxTagWith Generated.endRe Generated.licenseTag
+    ("SPDX-FileContributor: \"Jane\n".toList ++
+      ((⟨"# ".toList, " ".toList, "MIT".toList, " */".toList⟩ : TagLineSpec).line Generated.licenseTag ++
+        '\n' :: "/> anything".toList)) :=
+  C02_tag_found_anywhere Generated.endRe C02_end_guarded Generated.licenseTag (by decide) (by decide +kernel) _
+    (C02L.tagLineFound_of_ok (C02L.tagLineOK_of_syn Generated.endRe Generated.licenseTag _ [" ".toList, "*/".toList]
+      (by decide +kernel))) _ _
+    (.inr ⟨"SPDX-FileContributor: \"Jane".toList, by decide⟩)
+
 /-! ### copyright notices -/
 
 /-- **Read-back of a copyright notice.**  The notice `prefix [year] holder` (any of the ten
@@ -279,6 +434,98 @@ example : WFNotice Generated.endRe ("SPDX-FileCopyrightText:".toList, .spdx, [])
   simp only [WFNotice, WFHolder, he, hs, hs0, Bool.and_true, Bool.true_and]
   decide +kernel
 
+/-- `C02_copyright_exact_partial` with purely syntactic END conditions (`WFNoticeSyn`): the trail a sequence of
+    listed terminators and blanks, the holder tail-safe (`Jane Doe <jane@example.org>` is). -/
+theorem C02_copyright_exact_syn_partial (endRe : Re) (x : Text × CPat × Text) (hx : x ∈ prefixShapes)
+    (y : YearForm) (h pre trail : Text) (pieces : List Text) (hwf : WFNoticeSyn endRe x y h pre trail pieces = true) :
+    searchLineWith endRe (pre ++ builtLine x.1 y h ++ trail) =
+      some { pref := x.1, year := y.text, statement := h, whole := builtLine x.1 y h } :=
+  C02_copyright_exact_partial endRe x hx y h pre trail (C02L.wfNotice_of_syn endRe x y h pre trail pieces hwf)
+
+/-- what the reader finds in a line of a text of lines (`CprLine`) -/
+theorem C02_copyright_line_read (endRe : Re) (l : CprLine) (hok : l.ok endRe = true) :
+    (searchLineWith endRe l.text).map (fun m => strip m.whole) = l.found endRe := by
+  cases l with
+  | other t => rfl
+  | notice x y h pre trail =>
+    simp only [CprLine.ok, Bool.and_eq_true, decide_eq_true_eq] at hok
+    obtain ⟨⟨⟨hx, hwf⟩, hs⟩, _⟩ := hok
+    have hstrip : strip (builtLine x.1 y h) = builtLine x.1 y h := by
+      simpa [isStripped] using hs
+    simp only [CprLine.text, CprLine.found, C02_copyright_exact_partial endRe x hx y h pre trail hwf, Option.map_some, hstrip]
+
+/-- **Copyright notices of a whole text.**  The text is any number of lines (separated by line feeds, none holding a
+    line boundary of `str.splitlines`), each either a notice line `pre ++ notice ++ trail` (hypotheses of
+    `C02_copyright_exact_partial`, about that line alone) or any other line; no `REUSE-IgnoreStart`.  Then the
+    notices `extract_reuse_info` collects are exactly: for every notice line its notice — without `pre`, without
+    the trail —, for every other line whatever the reader finds in it; as a set in order of first occurrence. -/
+theorem C02_copyright_lines (endRe : Re) (ls : List CprLine) (hok : ∀ l ∈ ls, l.ok endRe = true)
+    (hign : findSub Generated.ignoreStart (cprTextOf ls) = none) :
+    (extractRawWith endRe (cprTextOf ls)).cpr = dedup (ls.filterMap (·.found endRe)) := by
+  rw [C02L.extractRawWith_cpr, filterIgnore_none hign,
+    C02L.cprLines_text endRe ls hok (fun l hl => C02_copyright_line_read endRe l (hok l hl))]
+
+/-- … in particular, when the other lines hold no notice: exactly the planted notices. -/
+theorem C02_copyright_lines_planted (endRe : Re) (ls : List CprLine) (hok : ∀ l ∈ ls, l.ok endRe = true)
+    (hq : ∀ l ∈ ls, l.quietOther endRe = true)
+    (hign : findSub Generated.ignoreStart (cprTextOf ls) = none) :
+    (extractRawWith endRe (cprTextOf ls)).cpr = dedup (ls.filterMap (·.planted)) := by
+  rw [C02_copyright_lines endRe ls hok hign, C02L.found_eq_planted endRe ls hq]
+
+/-- … and as membership, both ways, with nothing assumed about the other lines: a notice is reported iff it is
+    planted in a notice line or the reader finds it in one of the other lines. -/
+theorem C02_copyright_lines_mem (endRe : Re) (ls : List CprLine) (hok : ∀ l ∈ ls, l.ok endRe = true)
+    (hign : findSub Generated.ignoreStart (cprTextOf ls) = none) (n : Text) :
+    n ∈ (extractRawWith endRe (cprTextOf ls)).cpr ↔
+      n ∈ ls.filterMap (·.planted) ∨
+      ∃ t, CprLine.other t ∈ ls ∧ (searchLineWith endRe t).map (fun m => strip m.whole) = some n := by
+  rw [C02_copyright_lines endRe ls hok hign, mem_dedup]
+  simp only [List.mem_filterMap]
+  constructor
+  · rintro ⟨l, hl, hf⟩
+    cases l with
+    | other t => exact .inr ⟨t, hl, hf⟩
+    | notice x y h pre trail => exact .inl ⟨_, hl, hf⟩
+  · rintro (⟨l, hl, hf⟩ | ⟨t, ht, hf⟩)
+    · cases l with
+      | other t => cases hf
+      | notice x y h pre trail => exact ⟨_, hl, hf⟩
+    · exact ⟨_, ht, hf⟩
+
+/-- the hypotheses are satisfiable:
+    `# SPDX-FileCopyrightText: 2020 Jane Doe <jane@example.org> */ -->` / `int main() {` /
+    ` * Copyright (C) 2019-2021 Example Corp` / `` -/
+example : (extractRawWith Generated.endRe (cprTextOf
+    [.notice ("SPDX-FileCopyrightText:".toList, .spdx, []) (.single "2020".toList) "Jane Doe <jane@example.org>".toList
+        "# ".toList " */ -->".toList,
+     .other "int main() {".toList,
+     .notice ("Copyright (C)".toList, .word, " (C)".toList) (.range "2019".toList false false "2021".toList)
+        "Example Corp".toList " * ".toList [],
+     .other []])).cpr =
+    ["SPDX-FileCopyrightText: 2020 Jane Doe <jane@example.org>".toList, "Copyright (C) 2019-2021 Example Corp".toList] := by
+  have h1 := C02L.wfNotice_of_syn Generated.endRe ("SPDX-FileCopyrightText:".toList, .spdx, []) (.single "2020".toList)
+    "Jane Doe <jane@example.org>".toList "# ".toList " */ -->".toList [" ".toList, "*/".toList, " ".toList, "-->".toList]
+    (by decide +kernel)
+  have h2 := C02L.wfNotice_of_syn Generated.endRe ("Copyright (C)".toList, .word, " (C)".toList)
+    (.range "2019".toList false false "2021".toList) "Example Corp".toList " * ".toList [] [] (by decide +kernel)
+  rw [C02_copyright_lines_planted]
+  · decide +kernel
+  · intro l hl
+    simp only [List.mem_cons, List.not_mem_nil, or_false] at hl
+    rcases hl with rfl | rfl | rfl | rfl
+    · simp only [CprLine.ok, h1, Bool.and_true, Bool.true_and]; decide +kernel
+    · decide +kernel
+    · simp only [CprLine.ok, h2, Bool.and_true, Bool.true_and]; decide +kernel
+    · decide +kernel
+  · intro l hl
+    simp only [List.mem_cons, List.not_mem_nil, or_false] at hl
+    rcases hl with rfl | rfl | rfl | rfl
+    · rfl
+    · exact C02L.noticeFree_of_headFree _ _ (by decide +kernel)
+    · rfl
+    · exact C02L.noticeFree_of_headFree _ _ (by decide +kernel)
+  · decide +kernel
+
 /-! ### an unparseable expression drops the whole file -/
 
 /-- A file holding an unparseable licence expression contributes nothing at all. -/
@@ -373,5 +620,281 @@ example : "MIT".toList ∈ (extractRawWith Generated.endRe (decodedText (window
 
 /-- Valid UTF-8 decodes to the text it encodes (every Unicode scalar value, all four lengths). -/
 theorem C02_decode_valid_utf8 (t : Text) : decodeUtf8 (encodeUtf8 t) = t := decodeUtf8_encodeUtf8 t
+
+/-! ### the whole extraction: all three kinds of lines in one text -/
+
+/-- **`extract_reuse_info` returns exactly what is planted.**  The text is any number of lines in any order (separated
+    by line feeds), each one of: a licence tag line, a contributor tag line, a copyright notice line — each well formed
+    by conditions on *that line alone* (`InfoLine.ok`: the hypotheses of `C02_tag_lines_general` resp.
+    `C02_copyright_lines`, and the line holds nothing of the two other kinds) — or an information-free line (neither
+    tag, no notice; otherwise arbitrary); no line holds `REUSE-IgnoreStart` or a `str.splitlines` boundary.  Then the
+    result is exactly the planted licence values, the planted notices and the planted contributor values, each as a set
+    in order of first occurrence: nothing of any decoration or terminator becomes part of a value, nothing of a value
+    is lost, nothing else is reported. -/
+theorem C02_extract_exact (endRe : Re) (hG : EndGuarded endRe) (ls : List InfoLine)
+    (hok : ∀ l ∈ ls, l.ok endRe = true) :
+    extractRawWith endRe (infoTextOf ls) = plantedInfo ls :=
+  C02L.extract_text hG ls hok (C02_copyright_line_read endRe)
+
+/-- the same with purely syntactic hypotheses (each line given with the pieces of its trail; no run of the matcher
+    in any hypothesis) -/
+theorem C02_extract_exact_syn (endRe : Re) (hG : EndGuarded endRe) (ls : List (InfoLine × List Text))
+    (hok : ∀ p ∈ ls, p.1.syn endRe p.2 = true) :
+    extractRawWith endRe (infoTextOf (ls.map (·.1))) = plantedInfo (ls.map (·.1)) := by
+  apply C02_extract_exact endRe hG
+  intro l hl
+  obtain ⟨p, hp, rfl⟩ := List.mem_map.mp hl
+  exact C02L.infoLine_ok_of_syn endRe p.1 p.2 (hok p hp)
+
+/-- the hypotheses are satisfiable (`C02L.exampleLines`: a shebang line, two notices, four licence lines — one
+    duplicate, one with a parenthesised expression and trailing blank, one inside the LLVM frame `|*  …  *|` —, a
+    contributor in a C comment, a line with an unclosed quote, a final line feed) -/
+example : extractRawWith Generated.endRe (infoTextOf (C02L.exampleLines.map (·.1))) =
+    { lic := ["MIT".toList, "(MIT OR X)".toList, "Apache-2.0".toList]
+      cpr := ["SPDX-FileCopyrightText: 2020 Jane Doe <jane@example.org>".toList,
+              "Copyright (C) 2019-2021 Example Corp".toList]
+      con := ["Alice".toList] } := by
+  rw [C02_extract_exact_syn Generated.endRe C02_end_guarded C02L.exampleLines C02L.exampleLines_syn]
+  decide +kernel
+
+/-- **The file.**  A file that is the UTF-8 encoding of such a text and that fits the 4096-byte window or holds the
+    snippet indicator (then the whole file is read), all planted licence expressions parsing: `reuse_info_of_file`
+    reports exactly the planted information — or nothing at all when neither a licence nor a notice is planted
+    (contributors alone do not count). -/
+theorem C02_file_exact (parses : Text → Bool) (ls : List InfoLine) (hok : ∀ l ∈ ls, l.ok Generated.endRe = true)
+    (hparse : ∀ v ∈ (plantedInfo ls).lic, parses v = true)
+    (hfit : (encodeUtf8 (infoTextOf ls)).length ≤ 4096 ∨ containsSnippet (encodeUtf8 (infoTextOf ls)) = true) :
+    infoOfFile parses (encodeUtf8 (infoTextOf ls)) =
+      if (plantedInfo ls).lic.isEmpty && (plantedInfo ls).cpr.isEmpty then Extracted.empty else plantedInfo ls := by
+  unfold infoOfFile
+  rw [C02L.window_all _ hfit, C02L.decodedText_encode _ (C02L.infoText_noCR ls hok)]
+  exact C02L.infoOfDecoded_of_extract parses _ _ (C02_extract_exact Generated.endRe C02_end_guarded ls hok) hparse
+
+/-- the hypotheses are satisfiable: the example text as a file (under 300 bytes) -/
+example : infoOfFile (fun _ => true) (encodeUtf8 (infoTextOf (C02L.exampleLines.map (·.1)))) =
+    plantedInfo (C02L.exampleLines.map (·.1)) := by
+  rw [C02_file_exact (fun _ => true) _ (by
+    intro l hl
+    obtain ⟨p, hp, rfl⟩ := List.mem_map.mp hl
+    exact C02L.infoLine_ok_of_syn _ p.1 p.2 (C02L.exampleLines_syn p hp)) (fun _ _ => rfl) (.inl (by decide +kernel))]
+  decide +kernel
+
+/-- … and with the snippet indicator in a file of any length -/
+example : containsSnippet (encodeUtf8 (infoTextOf
+    [.other "# SPDX-SnippetBegin".toList, .lic ⟨"# ".toList, " ".toList, "MIT".toList, []⟩])) = true ∧
+    ∀ l ∈ [InfoLine.other "# SPDX-SnippetBegin".toList, .lic ⟨"# ".toList, " ".toList, "MIT".toList, []⟩],
+      l.ok Generated.endRe = true := by
+  refine ⟨by decide +kernel, ?_⟩
+  intro l hl
+  simp only [List.mem_cons, List.not_mem_nil, or_false] at hl
+  rcases hl with rfl | rfl
+  · exact C02L.infoLine_ok_of_syn _ _ [] (by decide +kernel)
+  · exact C02L.infoLine_ok_of_syn _ _ [] (by decide +kernel)
+
+/-! ### ignore blocks -/
+
+/-- **What `filter_ignore_block` leaves of a text with blocks** (composition with C12: `C12_block`, `C12_unclosed`,
+    `C12_stray_end`, i.e. `C12_filter_eq_spec`): visible text `a0`, any number of closed blocks each followed by visible
+    text, possibly a last block that is never closed — no start marker in a visible part, no end marker in a hidden
+    part, hidden parts otherwise arbitrary.  What remains is the visible parts glued together. -/
+theorem C02_blocks_filter (a0 : Text) (bs : List (Text × Text)) (o : Option Text) (h : chunksOK a0 bs o = true) :
+    filterIgnore (blocksText a0 bs o) = visibleText a0 bs := by
+  induction bs generalizing a0 with
+  | nil =>
+    simp only [chunksOK, List.all_nil, Bool.and_true, Bool.and_eq_true, Option.isNone_iff_eq_none] at h
+    cases o with
+    | none => exact C12.C12_stray_end a0 h.1
+    | some b =>
+      simp only [Option.isNone_iff_eq_none] at h
+      exact C12.C12_unclosed a0 b (C02L.findStart_at a0 b h.1) h.2
+  | cons p rest ih =>
+    obtain ⟨b, a⟩ := p
+    simp only [chunksOK, List.all_cons, Bool.and_eq_true, Option.isNone_iff_eq_none] at h
+    obtain ⟨⟨ha0, ⟨hb, ha⟩, hrest⟩, ho⟩ := h
+    have h1 : findSub Generated.ignoreStart (a0 ++ Generated.ignoreStart ++ b ++ Generated.ignoreEnd ++ blocksText a rest o) =
+        some a0.length := by
+      have := C02L.findStart_at a0 (b ++ Generated.ignoreEnd ++ blocksText a rest o) ha0
+      simpa [List.append_assoc] using this
+    have h2 := C02L.findEnd_at b (blocksText a rest o) hb
+    show filterIgnore (a0 ++ Generated.ignoreStart ++ b ++ Generated.ignoreEnd ++ blocksText a rest o) = a0 ++ visibleText a rest
+    rw [C12.C12_block a0 b _ h1 h2, ih a (by
+      simp only [chunksOK, Bool.and_eq_true, Option.isNone_iff_eq_none]
+      exact ⟨⟨ha, hrest⟩, ho⟩)]
+
+/-- **Tag lines inside ignore blocks contribute nothing, those outside do.**  For a text with blocks whose visible
+    parts, glued together, form a text of well-formed lines (`InfoLine.ok`, as in `C02_extract_exact`; the seam lines —
+    what stands before a start marker glued to what stands after the matching end marker — are lines of it), whatever
+    the hidden parts hold (licence lines, notices, contributors, further start markers): the result is exactly what is
+    planted in the visible lines. -/
+theorem C02_extract_exact_with_blocks (endRe : Re) (hG : EndGuarded endRe)
+    (a0 : Text) (bs : List (Text × Text)) (o : Option Text) (hch : chunksOK a0 bs o = true)
+    (ls : List InfoLine) (hvis : visibleText a0 bs = infoTextOf ls) (hok : ∀ l ∈ ls, l.ok endRe = true) :
+    extractRawWith endRe (blocksText a0 bs o) = plantedInfo ls := by
+  rw [C02L.extractRawWith_congr endRe (t' := infoTextOf ls), C02_extract_exact endRe hG ls hok]
+  rw [C02_blocks_filter a0 bs o hch, hvis, filterIgnore_none (C02L.infoText_noIgnore ls hok)]
+
+/-- the hypotheses are satisfiable:
+    `# SPDX-License-Identifier: MIT` / `# REUSE-IgnoreStart` / `# SPDX-License-Identifier: GPL-3.0-only` /
+    `# SPDX-FileCopyrightText: 2001 Hidden` / `# REUSE-IgnoreEnd` / `// SPDX-FileContributor: Alice` /
+    `# REUSE-IgnoreStart` / `SPDX-License-Identifier: Unseen` -/
+example : extractRawWith Generated.endRe (blocksText "# SPDX-License-Identifier: MIT\n# ".toList
+      [("\n# SPDX-License-Identifier: GPL-3.0-only\n# SPDX-FileCopyrightText: 2001 Hidden\n# ".toList,
+        "\n// SPDX-FileContributor: Alice\n# ".toList)]
+      (some "\nSPDX-License-Identifier: Unseen\n".toList)) =
+    { lic := ["MIT".toList], cpr := [], con := ["Alice".toList] } := by
+  rw [C02_extract_exact_with_blocks Generated.endRe C02_end_guarded _ _ _ (by decide +kernel)
+    [.lic ⟨"# ".toList, " ".toList, "MIT".toList, []⟩, .other "# ".toList,
+     .con ⟨"// ".toList, " ".toList, "Alice".toList, []⟩, .other "# ".toList] (by decide +kernel)
+    (by
+      intro l hl
+      simp only [List.mem_cons, List.not_mem_nil, or_false] at hl
+      rcases hl with rfl | rfl | rfl | rfl
+      · exact C02L.infoLine_ok_of_syn _ _ [] (by decide +kernel)
+      · exact C02L.infoLine_ok_of_syn _ _ [] (by decide +kernel)
+      · exact C02L.infoLine_ok_of_syn _ _ [] (by decide +kernel)
+      · exact C02L.infoLine_ok_of_syn _ _ [] (by decide +kernel))]
+  decide +kernel
+
+/-! ### files -/
+
+/-- A file that is the UTF-8 encoding of a text without carriage returns and that fits the window or holds the snippet
+    indicator is read as that text. -/
+theorem C02_file_of_text (parses : Text → Bool) (t : Text) (hcr : '\r' ∉ t)
+    (hfit : (encodeUtf8 t).length ≤ 4096 ∨ containsSnippet (encodeUtf8 t) = true) :
+    infoOfFile parses (encodeUtf8 t) = infoOfDecoded parses t := by
+  unfold infoOfFile
+  rw [C02L.window_all _ hfit, C02L.decodedText_encode _ hcr]
+
+/-- **Line-ending conventions.**  The same for the CRLF and the CR form of the text (`toCRLF`: every line feed written
+    as carriage return + line feed; `toCR`: as a lone carriage return): the decoder folds both back, so the file is
+    read as the LF text. -/
+theorem C02_file_of_text_line_endings (parses : Text → Bool) (t : Text) (hcr : '\r' ∉ t) (f : Text → Text)
+    (hf : f = id ∨ f = toCRLF ∨ f = toCR)
+    (hfit : (encodeUtf8 (f t)).length ≤ 4096 ∨ containsSnippet (encodeUtf8 (f t)) = true) :
+    infoOfFile parses (encodeUtf8 (f t)) = infoOfDecoded parses t := by
+  have hno : NoCR t := fun ch hch e => hcr (e ▸ hch)
+  have hfold : foldLineEndings (f t) = t := by
+    rcases hf with rfl | rfl | rfl
+    · exact C09L.fold_lf hno
+    · exact C09L.fold_crlf hno
+    · exact C09L.fold_cr hno
+  unfold infoOfFile
+  rw [C02L.window_all _ hfit]
+  unfold decodedText
+  rw [decodeUtf8_encodeUtf8, hfold]
+
+/-- **`C02_file_exact` in every line-ending convention** (LF, CRLF, CR). -/
+theorem C02_file_exact_line_endings (parses : Text → Bool) (ls : List InfoLine)
+    (hok : ∀ l ∈ ls, l.ok Generated.endRe = true)
+    (hparse : ∀ v ∈ (plantedInfo ls).lic, parses v = true)
+    (f : Text → Text) (hf : f = id ∨ f = toCRLF ∨ f = toCR)
+    (hfit : (encodeUtf8 (f (infoTextOf ls))).length ≤ 4096 ∨ containsSnippet (encodeUtf8 (f (infoTextOf ls))) = true) :
+    infoOfFile parses (encodeUtf8 (f (infoTextOf ls))) =
+      if (plantedInfo ls).lic.isEmpty && (plantedInfo ls).cpr.isEmpty then Extracted.empty else plantedInfo ls := by
+  rw [C02_file_of_text_line_endings parses _ (C02L.infoText_noCR ls hok) f hf hfit]
+  exact C02L.infoOfDecoded_of_extract parses _ _ (C02_extract_exact Generated.endRe C02_end_guarded ls hok) hparse
+
+/-- the hypotheses are satisfiable: the example text as a CRLF file -/
+example : infoOfFile (fun _ => true) (encodeUtf8 (toCRLF (infoTextOf (C02L.exampleLines.map (·.1))))) =
+    plantedInfo (C02L.exampleLines.map (·.1)) := by
+  rw [C02_file_exact_line_endings (fun _ => true) _ (by
+    intro l hl
+    obtain ⟨p, hp, rfl⟩ := List.mem_map.mp hl
+    exact C02L.infoLine_ok_of_syn _ p.1 p.2 (C02L.exampleLines_syn p hp)) (fun _ _ => rfl) toCRLF (.inr (.inl rfl))
+    (.inl (by decide +kernel))]
+  decide +kernel
+
+/-- `C02_file_exact` for a file with ignore blocks, in every line-ending convention. -/
+theorem C02_file_exact_with_blocks (parses : Text → Bool)
+    (a0 : Text) (bs : List (Text × Text)) (o : Option Text) (hch : chunksOK a0 bs o = true)
+    (ls : List InfoLine) (hvis : visibleText a0 bs = infoTextOf ls) (hok : ∀ l ∈ ls, l.ok Generated.endRe = true)
+    (hparse : ∀ v ∈ (plantedInfo ls).lic, parses v = true)
+    (hcr : '\r' ∉ blocksText a0 bs o)
+    (f : Text → Text) (hf : f = id ∨ f = toCRLF ∨ f = toCR)
+    (hfit : (encodeUtf8 (f (blocksText a0 bs o))).length ≤ 4096 ∨
+      containsSnippet (encodeUtf8 (f (blocksText a0 bs o))) = true) :
+    infoOfFile parses (encodeUtf8 (f (blocksText a0 bs o))) =
+      if (plantedInfo ls).lic.isEmpty && (plantedInfo ls).cpr.isEmpty then Extracted.empty else plantedInfo ls := by
+  rw [C02_file_of_text_line_endings parses _ hcr f hf hfit]
+  exact C02L.infoOfDecoded_of_extract parses _ _
+    (C02_extract_exact_with_blocks Generated.endRe C02_end_guarded a0 bs o hch ls hvis hok) hparse
+
+/-- **A well-formed line lying wholly inside the first 4096 bytes is read** — any of the three kinds, after *any* text
+    `U` that ends a line and holds no `REUSE-IgnoreStart` (tags, values running on, unclosed quotes: no "tag-free lines
+    above" restriction), followed by arbitrary bytes `more` (a `REUSE-IgnoreStart`, invalid UTF-8, a character cut by
+    the window, …: nothing is assumed about the decoded rest), with or without snippet indicator.  Generalises
+    `C02_window_finds_inside`. -/
+theorem C02_window_finds_line (l : InfoLine) (hok : l.ok Generated.endRe = true) (U : Text)
+    (hU : U = [] ∨ ∃ u, U = u ++ ['\n']) (hUign : findSub Generated.ignoreStart U = none) (more : Bytes)
+    (hcr : '\r' ∉ U ++ (l.text ++ ['\n']))
+    (hlen : (encodeUtf8 (U ++ (l.text ++ ['\n']))).length ≤ 4096) :
+    (∀ v, l.licValue = some v →
+      v ∈ (extractRaw (decodedText (window (encodeUtf8 (U ++ (l.text ++ ['\n'])) ++ more)))).lic) ∧
+    (∀ v, l.conValue = some v →
+      v ∈ (extractRaw (decodedText (window (encodeUtf8 (U ++ (l.text ++ ['\n'])) ++ more)))).con) ∧
+    (∀ n, l.notice = some n →
+      n ∈ (extractRaw (decodedText (window (encodeUtf8 (U ++ (l.text ++ ['\n'])) ++ more)))).cpr) := by
+  obtain ⟨tailText, ht⟩ := decodedText_window_head _ more hcr hlen
+  obtain ⟨hlic, hcon, hcpr, _, hlign⟩ := C02L.infoLine_ok_parts hok
+  have hfilter : filterIgnore (U ++ (l.text ++ ['\n']) ++ tailText) = U ++ (l.text ++ '\n' :: filterIgnore tailText) := by
+    rw [C02L.filterIgnore_head _ tailText
+      (C02L.findSub_head_none _ (by decide) (by decide) U l.text hU hUign hlign) (C02L.atLS_head U l.text)]
+    simp [List.append_assoc]
+  rw [ht]
+  unfold extractRaw extractRawWith
+  simp only [hfilter, mem_dedup]
+  refine ⟨fun v hv => ?_, fun v hv => ?_, fun n hn => ?_⟩
+  · cases l with
+    | lic s =>
+      simp only [InfoLine.licValue, Option.some.injEq] at hv
+      subst hv
+      exact C02_tag_found_anywhere Generated.endRe C02_end_guarded Generated.licenseTag (by decide) (by decide +kernel) s
+        (C02L.tagLineFound_of_ok hlic) U _ hU
+    | licF s ws =>
+      simp only [InfoLine.licValue, Option.some.injEq] at hv
+      subst hv
+      exact C02_framed_tag_found_anywhere Generated.endRe C02_end_guarded Generated.licenseTag (by decide)
+        (by decide +kernel) s ws hlic U _ hU
+    | con s => cases hv
+    | conF s ws => cases hv
+    | cpr x y h pre trail => cases hv
+    | other t => cases hv
+  · cases l with
+    | con s =>
+      simp only [InfoLine.conValue, Option.some.injEq] at hv
+      subst hv
+      exact C02_tag_found_anywhere Generated.endRe C02_end_guarded Generated.contributorTag (by decide) (by decide +kernel) s
+        (C02L.tagLineFound_of_ok hcon) U _ hU
+    | conF s ws =>
+      simp only [InfoLine.conValue, Option.some.injEq] at hv
+      subst hv
+      exact C02_framed_tag_found_anywhere Generated.endRe C02_end_guarded Generated.contributorTag (by decide)
+        (by decide +kernel) s ws hcon U _ hU
+    | lic s => cases hv
+    | licF s ws => cases hv
+    | cpr x y h pre trail => cases hv
+    | other t => cases hv
+  · cases l with
+    | cpr x y h pre trail =>
+      simp only [InfoLine.notice, Option.some.injEq] at hn
+      subst hn
+      have hread := C02_copyright_line_read Generated.endRe _ hcpr
+      exact C02L.cprLines_embed Generated.endRe U _ _ hU (C02L.cprLine_text_noBreak _ _ hcpr) _ hread
+    | lic s => cases hn
+    | con s => cases hn
+    | licF s ws => cases hn
+    | conF s ws => cases hn
+    | other t => cases hn
+
+/-- the hypotheses are satisfiable: a contributor line whose quoted value runs on, then the notice line, then a
+    `REUSE-IgnoreStart` and a truncated multi-byte sequence -/
+example : "Copyright (C) 2019-2021 Example Corp".toList ∈ (extractRaw (decodedText (window
+    (encodeUtf8 ("SPDX-FileContributor: \"Jane\n".toList ++
+      ((InfoLine.cpr ("Copyright (C)".toList, .word, " (C)".toList) (.range "2019".toList false false "2021".toList)
+        "Example Corp".toList " * ".toList " -->".toList).text ++ ['\n'])) ++
+      (encodeUtf8 "# REUSE-IgnoreStart".toList ++ [0xE2, 0x82]))))).cpr :=
+  (C02_window_finds_line _ (C02L.infoLine_ok_of_syn _ _ [" ".toList, "-->".toList] (by decide +kernel))
+    "SPDX-FileContributor: \"Jane\n".toList (.inr ⟨"SPDX-FileContributor: \"Jane".toList, by decide⟩) (by decide +kernel) _
+    (by decide +kernel) (by decide +kernel)).2.2 _ rfl
 
 end C02
